@@ -218,6 +218,14 @@ Proof.
   rewrite Forall_forall in F. specialize (F x Hx). unfold span_in in F. lia.
 Qed.
 
+Lemma render_group_nonempty n cur g :
+  g_spans g <> [] ->
+  render_group n (DText cur) g =
+  if slices_ok cur g then
+    DText (stake (Z.to_nat (g_b g)) cur ++ group_ret g ++ annotation n cur g ++ sdrop (Z.to_nat (g_e g)) cur)
+  else DPanic.
+Proof. intros H. unfold render_group. destruct (g_spans g); [congruence|reflexivity]. Qed.
+
 Lemma render_step offset n src g l :
   group_ok offset g -> (offset <= Z.of_nat (String.length src))%Z ->
   ranges_ok (String.length src) 0 l -> Z.to_nat (g_e g) <= first_b (String.length src) l ->
@@ -226,7 +234,7 @@ Proof.
   intros Hg Hoff Hr Hq. pose proof Hg as (Hne & Hb & Hsp).
   apply ranges_ok_le in Hr. destruct Hr as [_ Hfl].
   destruct (splice_prefix src (Z.to_nat (g_e g)) l Hq Hfl) as [P1 P2].
-  unfold render_group. destruct (g_spans g) eqn:Es; [congruence|].
+  rewrite render_group_nonempty by exact Hne.
   rewrite (slices_ok_true offset); [|exact Hg|eapply stake_len_ge; [exact P1|lia]].
   f_equal. unfold replacement. cbn [splice]. rewrite ssub_0.
   rewrite (annotation_agree n (splice src 0 l) src (Z.to_nat (g_e g)) g P1 Hsp) by lia.
@@ -234,7 +242,7 @@ Proof.
   replace (stake (Z.to_nat (g_b g)) (splice src 0 l)) with (stake (Z.to_nat (g_b g)) src).
   - now rewrite !sapp_assoc3.
   - rewrite <- (stake_stake (Z.to_nat (g_b g)) (Z.to_nat (g_e g)) (splice src 0 l)) by lia.
-    rewrite P1. apply stake_stake. lia.
+    rewrite P1. symmetry. apply stake_stake. lia.
 Qed.
 
 Lemma fold_render offset n src : forall m l,
@@ -257,8 +265,10 @@ Proof.
     destruct (IH (replacement n src g :: l)) as [E R]; try assumption.
     + cbn. repeat split; try lia. apply ranges_ok_le in Hr as Hr'.
       destruct l as [|[[b e] r] l']; cbn in *; [lia|]. repeat split; try lia. tauto.
-    + cbn. destruct m as [|g' m']; [cbn; lia|]. specialize (Hs2 ltac:(discriminate)). cbn in *. lia.
-    + intros Hm' _. cbn. specialize (Hs2 Hm'). destruct m; [congruence|]. cbn in *. lia.
+    + unfold replacement. cbn [first_b]. destruct m as [|g' m']; [cbn; lia|].
+      specialize (Hs2 ltac:(discriminate)). cbn [last_end_of] in *. lia.
+    + intros Hm' _. unfold replacement. cbn [first_b]. specialize (Hs2 Hm'). destruct m; [congruence|].
+      cbn [last_end_of] in *. inversion Hm as [|? ? Hg' ?]; subst. destruct Hg' as (_ & Hb' & _). lia.
     + rewrite E. rewrite map_app. cbn [map]. rewrite <- !app_assoc. cbn [app]. split; [reflexivity|].
       rewrite map_app in R. cbn [map] in R. rewrite <- app_assoc in R. exact R.
 Qed.
